@@ -652,7 +652,7 @@ fn gen_filter(rng: &mut Rng) -> String {
 fn gen_pool(rng: &mut Rng, d: f64, tier: Tier) -> Vec<String> {
     let d = if d.is_finite() && d > 0.0 && d < 1.0e6 { d } else { 1.0 };
     let mut pool = Vec::new();
-    let fam = rng.weighted(&[6, 6, 3, 3, 2, 2, 3]);
+    let fam = rng.weighted(&[6, 6, 3, 3, 2, 2, 3, 1]);
     match fam {
         0 => {
             // doubles around a base
@@ -720,6 +720,12 @@ fn gen_pool(rng: &mut Rng, d: f64, tier: Tier) -> Vec<String> {
             pool.push("b0".to_string());
             pool.push("b1".to_string());
             pool.push("-".to_string());
+        }
+        7 => {
+            // the extremes only: the difference overflows to infinity, differences of infinities are NaN
+            for x in [f64::MAX, -f64::MAX, 0.0, f64::INFINITY, f64::NEG_INFINITY] {
+                pool.push(f64tok(x));
+            }
         }
         _ => {
             // mixed kinds
